@@ -349,4 +349,247 @@ theorem readLoop_continues (optAll : Bool) (rd : Read) (rest : List Read) (s : S
       simp [this]
   exact ⟨contMode (eolMode s'), by simp [readLoop, hrun, heof, hcut]⟩
 
+/-! ### losslessness: the returned bytes are the consumed bytes, with `#!` as `//` -/
+
+theorem Rw.refl : ∀ xs : List UInt8, Rw xs xs
+  | [] => .nil
+  | c :: xs => .same c (Rw.refl xs)
+
+theorem Rw.append {a b c d : List UInt8} (h₁ : Rw a b) (h₂ : Rw c d) : Rw (a ++ c) (b ++ d) := by
+  induction h₁ with
+  | nil => simpa using h₂
+  | same x _ ih => exact .same x ih
+  | hashbang _ ih => exact .hashbang ih
+
+theorem Rw.length {a b : List UInt8} (h : Rw a b) : a.length = b.length := by
+  induction h with
+  | nil => rfl
+  | same x _ ih => simp [ih]
+  | hashbang _ ih => simp [ih]
+
+/-- without the two bytes `#!` next to each other nothing is rewritten -/
+theorem Rw.eq_of_no_hashbang {a b : List UInt8} (h : Rw a b)
+    (hno : ∀ p q : List UInt8, a ≠ p ++ 35 :: 33 :: q) : a = b := by
+  induction h with
+  | nil => rfl
+  | same x _ ih =>
+    congr 1
+    exact ih (fun p q hpq => hno (x :: p) q (by simp [hpq]))
+  | hashbang _ _ => exact absurd rfl (hno [] _)
+
+set_option maxRecDepth 100000 in
+theorem classify_table : ∀ n, n < 256 →
+    (classify (UInt8.ofNat n) = .bang → UInt8.ofNat n = 33) ∧
+    (classify (UInt8.ofNat n) = .hash → UInt8.ofNat n = 35) := by decide
+
+theorem classify_bang (ch : UInt8) (h : classify ch = .bang) : ch = 33 := by
+  have := (classify_table ch.toNat (UInt8.toNat_lt ch)).1
+  simp only [UInt8.ofNat_toNat] at this; exact this h
+
+theorem classify_hash (ch : UInt8) (h : classify ch = .hash) : ch = 35 := by
+  have := (classify_table ch.toNat (UInt8.toNat_lt ch)).2
+  simp only [UInt8.ofNat_toNat] at this; exact this h
+
+theorem step_rw_true (s : St) (pos : Int) (ch : UInt8) (s' : St) (h : step s pos ch = .ok s' true) :
+    s.m = .hash ∧ classify ch = .bang ∧ s'.m ≠ .hash := by
+  obtain ⟨m, p, ig, ft, lt⟩ := s
+  unfold step at h
+  cases m <;> cases hcl : classify ch <;>
+    simp [hcl, switchCase, normalCase, plusMinusCase, runeCase, runeEscCase, stringCase, stringEscCase,
+      rawStringCase, slashCase, hashCase, commentCase, commentStarCase, tildeCase, isBlank] at h ⊢ <;>
+    (try (split at h <;> simp at h)) <;> (try (subst h; simp))
+
+theorem step_into_hash (s : St) (pos : Int) (ch : UInt8) (s' : St) (h : step s pos ch = .ok s' false)
+    (hm : s'.m = .hash) : classify ch = .hash := by
+  obtain ⟨m, p, ig, ft, lt⟩ := s
+  unfold step at h
+  cases m <;> cases hcl : classify ch <;>
+    simp [hcl, switchCase, normalCase, plusMinusCase, runeCase, runeEscCase, stringCase, stringEscCase,
+      rawStringCase, slashCase, hashCase, commentCase, commentStarCase, tildeCase, isBlank, foundtoken] at h <;>
+    (try (split at h <;> simp at h)) <;> (try (subst h; simp at hm)) <;>
+    (try (by_cases hp : p = 0 <;> simp [hp] at hm)) <;> (try rfl)
+
+/-- `oacc` = the original bytes line[:i] reversed, `acc` = the same bytes as ReadMultiline holds them -/
+def HashInv (s : St) (oacc acc : List UInt8) : Prop :=
+  Rw oacc.reverse acc.reverse ∧
+  (s.m = .hash → acc = [] ∨ ∃ o' a', oacc = 35 :: o' ∧ acc = 35 :: a' ∧ Rw o'.reverse a'.reverse)
+
+theorem runLine_rw (base : Int) (line : List UInt8) :
+    ∀ (s : St) (i : Nat) (oacc acc : List UInt8), HashInv s oacc acc →
+    match runLine base s i line acc with
+    | .done _ out => Rw (oacc.reverse ++ line) out
+    | .err _ out _ => ∃ k, Rw (oacc.reverse ++ line.take k) out
+    | .panic => True := by
+  induction line with
+  | nil => intro s i oacc acc h; simpa [runLine] using h.1
+  | cons ch rest ih =>
+    intro s i oacc acc hinv
+    simp only [runLine]
+    cases hst : step s (base + ↑i) ch with
+    | err r => exact ⟨0, by simpa using hinv.1⟩
+    | ok s' rw =>
+      cases rw with
+      | false =>
+        have hinv' : HashInv s' (ch :: oacc) (ch :: acc) := by
+          refine ⟨by simpa using Rw.append hinv.1 (Rw.refl [ch]), fun hm => Or.inr ?_⟩
+          have := classify_hash ch (step_into_hash s _ ch s' hst hm)
+          subst this
+          exact ⟨oacc, acc, rfl, rfl, hinv.1⟩
+        have := ih s' (i + 1) (ch :: oacc) (ch :: acc) hinv'
+        dsimp only
+        revert this
+        cases runLine base s' (i + 1) rest (ch :: acc) with
+        | done s2 out => intro this; simpa using this
+        | panic => intro _; trivial
+        | err s2 out r =>
+          intro this
+          obtain ⟨k, hk⟩ := this
+          exact ⟨k + 1, by simpa using hk⟩
+      | true =>
+        obtain ⟨hm, hbang, hm'⟩ := step_rw_true s _ ch s' hst
+        have hch := classify_bang ch hbang
+        subst hch
+        rcases hinv.2 hm with hnil | ⟨o', a', ho, ha, hrw⟩
+        · subst hnil; simp
+        · subst ho; subst ha
+          have hinv' : HashInv s' (33 :: 35 :: o') (47 :: 47 :: a') := by
+            refine ⟨?_, fun h => absurd h hm'⟩
+            have := Rw.append hrw (Rw.hashbang Rw.nil)
+            simpa using this
+          have := ih s' (i + 1) (33 :: 35 :: o') (47 :: 47 :: a') hinv'
+          dsimp only
+          revert this
+          cases runLine base s' (i + 1) rest (47 :: 47 :: a') with
+          | done s2 out => intro this; simpa using this
+          | panic => intro _; trivial
+          | err s2 out r =>
+            intro this
+            obtain ⟨k, hk⟩ := this
+            exact ⟨k + 1, by simpa using hk⟩
+
+/-- one call: the chunk is the consumed input with `#!` as `//`; after a literal error it is
+    such an image of a prefix of the consumed input (the rest of the offending line is dropped) -/
+def ChunkRw (c : Chunk) : Prop :=
+  match c.err with
+  | .lit _ => ∃ pre, pre <+: c.orig ∧ Rw pre c.bytes
+  | .panic => True
+  | _ => Rw c.orig c.bytes
+
+theorem chunkRw_eof (buf orig : List UInt8) (ft : Int) (s : St) (h : Rw orig buf) :
+    ChunkRw ⟨buf, ft, eofErr s, orig⟩ := by
+  unfold ChunkRw eofErr
+  by_cases hp : s.paren > 0 <;> simp [hp, h]
+
+theorem readLoop_rw (optAll : Bool) :
+    ∀ (reads : List Read) (s : St) (buf orig : List UInt8), Rw orig buf →
+    ChunkRw (readLoop optAll reads s buf orig).1 := by
+  intro reads
+  induction reads with
+  | nil =>
+    intro s buf orig h
+    simp only [readLoop]; exact chunkRw_eof _ _ _ _ h
+  | cons rd rest ih =>
+    intro s buf orig h
+    have hl := runLine_rw (↑buf.length) rd.line s 0 [] [] ⟨by simpa using Rw.nil, fun _ => Or.inl rfl⟩
+    simp only [readLoop]
+    cases hrl : runLine (↑buf.length) s 0 rd.line [] with
+    | panic => simp [ChunkRw]
+    | err s' out r =>
+      simp [hrl] at hl
+      obtain ⟨k, hk⟩ := hl
+      exact ⟨orig ++ rd.line.take k, by simpa using List.take_prefix k rd.line, Rw.append h hk⟩
+    | done s' out =>
+      simp [hrl] at hl
+      have h' : Rw (orig ++ rd.line) (buf ++ out) := Rw.append h hl
+      dsimp only
+      by_cases heof : rd.eof = true
+      · rw [if_pos heof]; exact chunkRw_eof _ _ _ _ h'
+      · rw [if_neg heof]
+        by_cases hcut : cutCond optAll (eolMode s') = true
+        · rw [if_pos hcut]
+          split
+          · exact ih _ _ _ h'
+          · simpa [ChunkRw] using h'
+        · rw [if_neg hcut]; exact ih _ _ _ h'
+
+/-- consumed bytes and unread lines together are always the whole input -/
+theorem readLoop_consumes (optAll : Bool) :
+    ∀ (reads : List Read) (s : St) (buf orig : List UInt8),
+    (readLoop optAll reads s buf orig).1.orig ++ ((readLoop optAll reads s buf orig).2.map (·.line)).flatten
+      = orig ++ (reads.map (·.line)).flatten := by
+  intro reads
+  induction reads with
+  | nil => intro s buf orig; simp [readLoop]
+  | cons rd rest ih =>
+    intro s buf orig
+    simp only [readLoop]
+    cases hrl : runLine (↑buf.length) s 0 rd.line [] with
+    | panic => simp
+    | err s' out r => simp
+    | done s' out =>
+      simp only
+      split
+      · simp
+      · split
+        · split
+          · rw [ih]; simp
+          · simp
+        · rw [ih]; simp
+
+/-! ### the caller's loop -/
+
+/-- the reads left unread when the caller's loop stops (EOF reported, or fuel exhausted) -/
+def readAllRest (optAll : Bool) : Nat → List Read → List Read
+  | 0, reads => reads
+  | fuel + 1, reads =>
+    let (c, rest) := readMultiline optAll reads
+    match c.err with
+    | .eof | .ueof => rest
+    | _ => readAllRest optAll fuel rest
+
+theorem readAll_consumes (optAll : Bool) : ∀ (fuel : Nat) (reads : List Read),
+    ((readAll optAll fuel reads).map (·.orig)).flatten ++ ((readAllRest optAll fuel reads).map (·.line)).flatten
+      = (reads.map (·.line)).flatten := by
+  intro fuel
+  induction fuel with
+  | zero => intro reads; simp [readAll, readAllRest]
+  | succ fuel ih =>
+    intro reads
+    have hc := readLoop_consumes optAll reads init [] []
+    simp only [readAll, readAllRest, readMultiline] at hc ⊢
+    cases hr : readLoop optAll reads init [] [] with
+    | mk c rest =>
+      simp only [hr] at hc ⊢
+      cases hce : c.err <;> simp only [List.map_cons, List.flatten_cons, List.map_nil, List.flatten_nil,
+        List.append_nil, List.nil_append] at hc ⊢ <;>
+        first
+        | exact hc
+        | (rw [List.append_assoc, ih rest]; exact hc)
+
+theorem readAll_rw (optAll : Bool) : ∀ (fuel : Nat) (reads : List Read),
+    (∀ c ∈ readAll optAll fuel reads, (∀ b, c.err ≠ .lit b) ∧ c.err ≠ .panic) →
+    Rw ((readAll optAll fuel reads).map (·.orig)).flatten ((readAll optAll fuel reads).map (·.bytes)).flatten := by
+  intro fuel
+  induction fuel with
+  | zero => intro reads _; simpa [readAll] using Rw.nil
+  | succ fuel ih =>
+    intro reads hok
+    have hc := readLoop_rw optAll reads init [] [] Rw.nil
+    simp only [readAll, readMultiline] at hok hc ⊢
+    cases hr : readLoop optAll reads init [] [] with
+    | mk c rest =>
+      simp only [hr] at hok hc ⊢
+      have hcrw : (∀ b, c.err ≠ .lit b) → c.err ≠ .panic → Rw c.orig c.bytes := by
+        intro h1 h2
+        unfold ChunkRw at hc
+        cases hce : c.err <;> simp_all
+      cases hce : c.err <;> simp only [hce] at hok ⊢ <;>
+        simp only [List.map_cons, List.flatten_cons, List.map_nil, List.flatten_nil, List.append_nil]
+      · have h := hok c (by simp)
+        exact Rw.append (hcrw h.1 h.2) (ih rest (fun c' hc' => hok c' (by simp [hc'])))
+      · have h := hok c (by simp); exact hcrw h.1 h.2
+      · have h := hok c (by simp); exact hcrw h.1 h.2
+      · exact absurd hce ((hok c (by simp)).1 _)
+      · exact absurd hce (hok c (by simp)).2
+
 end ReadMulti
